@@ -13,13 +13,18 @@
 (*     an update/upsert callback is the store's value (or nothing, upsert);  *)
 (*  P3 after a successful delete nothing is cached (= P2, the store has no   *)
 (*     value);  P4 add on a cached key: duplicate, no store call; a          *)
-(*     duplicate/rejected reply never comes with a store call;               *)
+(*     duplicate/rejected reply never comes with a store call; an add whose  *)
+(*     store callback begins finds the key uncached (the duplicate check is  *)
+(*     made when the add is applied, in acceptance order); no operation is   *)
+(*     answered before an earlier accepted one of its key touched the store  *)
+(*     (serial runs; a get may be answered from the cache at once);          *)
 (*  P5 what an undisturbed call returns is the store's value (or its own     *)
 (*     last callback's answer); every accepted operation returns.            *)
 (* Events:                                                                   *)
 (*   reset {nk, serial, ...}      new group                                  *)
 (*   sub {id, op, k, d}           caller is about to call DoXxx              *)
-(*   scb {id, k, fn}              store callback entered (worker goroutine)  *)
+(*   scb {id, k, fn, cached}      store callback entered (worker goroutine); *)
+(*                                cached = Peek of every facade at that moment *)
 (*   sce {id, k, fn, d, pre, inj, r}   ... applied to the store, result r    *)
 (*   cset {k, v} / cdel {k}       facade Set / Delete (worker goroutine)     *)
 (*   ret {id, r}                  DoXxx returned                             *)
@@ -34,7 +39,7 @@ VARIABLES
   serial,  \* submissions are separated by quiescence: ids are acceptance order
   store,   \* key -> value, replayed from the store events
   base,    \* key -> store value when the operation now calling the store began
-  tops,    \* id -> [op, k, d, n, solo, lr, cached]
+  tops,    \* id -> [op, k, d, n, solo, lr, cached, rej]
   pend,    \* ids submitted and not returned
   open,    \* key -> id inside a store callback (0 = none)
   cursor,  \* key -> latest id that called the store
@@ -67,7 +72,7 @@ TSub(e) ==
        /\ tops' = Append([i \in 1..Len(tops) |->
                             IF i \in PendK(e.k) THEN [tops[i] EXCEPT !.solo = FALSE] ELSE tops[i]],
                          [op |-> e.op, k |-> e.k, d |-> e.d, n |-> 0, solo |-> quiet, lr |-> 0,
-                          cached |-> (pend = {} /\ seen # <<>> /\ seen[e.k] # <<>>)])
+                          cached |-> (pend = {} /\ seen # <<>> /\ seen[e.k] # <<>>), rej |-> FALSE])
        /\ base' = IF quiet THEN [base EXCEPT ![e.k] = store[e.k]] ELSE base
   /\ pend' = pend \cup {e.id}
   /\ seen' = <<>>
@@ -77,6 +82,12 @@ TScb(e) ==
   /\ e.id \in pend /\ tops[e.id].k = e.k                  \* only for an accepted, unreturned operation
   /\ open[e.k] = 0                                        \* one at a time per key
   /\ serial => e.id >= cursor[e.k]                        \* in the order of acceptance
+  /\ serial => \A i \in (e.id + 1)..Len(tops) :          \* nobody accepted later was answered first
+                 (tops[i].k = e.k /\ i \notin pend /\ tops[i].op # "get") => tops[i].rej
+  /\ (e.fn = "add" /\ tops[e.id].op = "add") => e.cached = <<>>   \* add on a cached key never reaches the store
+  /\ \A j \in 1..Len(e.cached) :                          \* what is cached when the store is consulted
+        /\ e.cached[j] # 0
+        /\ e.cached[j] \in (IF cursor[e.k] # e.id THEN {store[e.k]} ELSE {store[e.k], base[e.k]})
   /\ open' = [open EXCEPT ![e.k] = e.id]
   /\ cursor' = [cursor EXCEPT ![e.k] = e.id]
   /\ base' = IF cursor[e.k] # e.id THEN [base EXCEPT ![e.k] = store[e.k]] ELSE base
@@ -118,8 +129,9 @@ TRet(e) ==
         /\ (o.solo /\ r.ok /\ o.op = "del") => (r.v = 0 /\ store[o.k] = 0 /\ o.n > 0)
         /\ open[o.k] # e.id
   /\ pend' = pend \ {e.id}
+  /\ tops' = [tops EXCEPT ![e.id].rej = e.r.e \in {"qfull", "closed"}]
   /\ seen' = <<>>
-  /\ UNCHANGED <<serial, store, base, tops, open, cursor>>
+  /\ UNCHANGED <<serial, store, base, open, cursor>>
 
 TStep(e) ==
   /\ e.store = store
